@@ -55,6 +55,13 @@ async def one(cfg):
         try: yield ctx.message.task_id
         except BaseException as e: ev.append(('dep_thrown', type(e).__name__)); raise
         finally: ev.append(('dep_close',))
+    import contextlib
+    @contextlib.contextmanager
+    def dep_cm():
+        ev.append(('cm_open',))
+        try: yield 'cm'
+        except BaseException as e: ev.append(('cm_thrown', type(e).__name__)); raise
+        finally: ev.append(('cm_close',))
     outcome = cfg['outcome']
     def body(x, d):
         ev.append(('task_start', x, d))
@@ -63,14 +70,14 @@ async def one(cfg):
         if outcome == 'noresult': ev.append(('task_end',)); raise NoResultError()
         ev.append(('task_end',)); return ('ret', x)
     if cfg['async_target']:
-        async def t(x, d=TaskiqDepends(dep_gen)):
+        async def t(x, d=TaskiqDepends(dep_gen), c=TaskiqDepends(dep_cm)):
             if outcome in ('timeout', 'timeout0'):
                 ev.append(('task_start', x, d))
                 try: await asyncio.sleep(5)
                 finally: ev.append(('task_end',))
             return body(x, d)
     else:
-        def t(x, d=TaskiqDepends(dep_gen)): return body(x, d)
+        def t(x, d=TaskiqDepends(dep_gen), c=TaskiqDepends(dep_cm)): return body(x, d)
     b.register_task(t, task_name='t')
     labels = {'lbl': 7}
     if outcome == 'timeout': labels['timeout'] = 0.05
@@ -189,6 +196,10 @@ def monitor(cfg, ev, raised):
         for later in ('set_result_start', 'on_error', 'post_execute'):
             if idx(later) is not None and c > idx(later): f.append(f"C12: teardown after {later}")
         if cfg['ack_time'] in (1, 2) and idx('ack') is not None and c > idx('ack'): f.append("C12: teardown after the acknowledgement")
+        if names.count('cm_open') != 1 or names.count('cm_close') != 1: f.append(f"C12: context-manager dependency opened {names.count('cm_open')} closed {names.count('cm_close')}")
+        elif ('cm_thrown' in names) != (oc != 'return' and cfg.get('propagate', True)): f.append(f"C12: exception thrown into the context-manager dependency={'cm_thrown' in names} (outcome {oc}, propagate={cfg.get('propagate', True)})")
+        elif idx('dep_open') is not None and idx('dep_close') is not None and (idx('cm_open') < idx('dep_open')) != (idx('cm_close') > idx('dep_close')):
+            f.append(f"C12: dependencies not finalised in reverse order of opening: {[n_ for n_ in names if n_ in ('cm_open', 'dep_open', 'cm_close', 'dep_close')]}")
         thrown = 'dep_thrown' in names
         if thrown != (oc != 'return' and cfg.get('propagate', True)): f.append(f"C12: exception thrown into dependency={thrown} (outcome {oc}, propagate={cfg.get('propagate', True)})")
     # C06: dependency saw its own message
@@ -218,7 +229,7 @@ def run(sc):
         bad, seen = asyncio.run(isolation(shape)); n += 1
         if bad or len(seen) != 2: fails.append({'key': 'isolation:' + shape, 'config': {'overlapping_messages': ['A', 'B'], 'dependency': shape},
                                 'failed_clauses': [f"C06: execution of message {mid} observed (dependency value, Context.task_id, label) = {v}" for mid, v in bad.items()] or ["C06: an execution did not complete"], 'trace': [str(seen)]})
-    return {'reproduced': bool(fails), 'runs': n, 'failures': fails[:8], 'n_failures': len(fails)}
+    return {'reproduced': bool(fails), 'runs': n, 'failures': fails[:400], 'n_failures': len(fails)}
 
 if __name__ == '__main__':
     sc = json.load(open(sys.argv[1])) if len(sys.argv) > 1 else {}
